@@ -38,6 +38,25 @@ def run(ck):
     addm("prover", mutate.inner_u64_mutants(pv, rng, pk_off, 400, 40 if quick else 400))
     addm("prover", mutate.inner_u64_mutants(pv, rng, pk_off, pk_len, 40 if quick else 600))
     addm("prover", mutate.inner_u64_mutants(pv, rng, ck_off, 8, 13))
+    # non-canonical scalars (value + r) inside the prover key: polynomial coefficients and entries of the 8n evaluation
+    # tables of the first selector entries (layout: n, eval_size, then per entry: coefficient count, coefficients,
+    # domain header + 8n evaluations)
+    n_pk = int.from_bytes(pv[pk_off:pk_off + 8], "little"); ev_sz = int.from_bytes(pv[pk_off + 8:pk_off + 16], "little")
+    dom_sz = ev_sz - 8 * n_pk * 32
+    off = pk_off + 16
+    for entry in range(4 if quick else 11):
+        if dom_sz < 0 or off + 8 > pk_off + pk_len: break
+        L_ = int.from_bytes(pv[off:off + 8], "little")
+        coeff0 = off + 8; tab0 = coeff0 + 32 * L_ + dom_sz
+        if tab0 + 8 * n_pk * 32 > pk_off + pk_len: break
+        targets = [("polynomial coefficient", coeff0 + 32 * j) for j in ([0, L_ - 1] if L_ else [])]
+        targets += [("evaluation-table entry", tab0 + 32 * j) for j in (0, rng.randrange(8 * n_pk), 8 * n_pk - 1)]
+        for what, o in targets:
+            v_ = int.from_bytes(pv[o:o + 32], "little")
+            if v_ < R and v_ + R < (1 << 256):
+                b = bytearray(pv); b[o:o + 32] = (v_ + R).to_bytes(32, "little")
+                addm("prover", [(f"prover key entry {entry}: {what} := value + r (non-canonical scalar)", bytes(b))])
+        off = tab0 + 8 * n_pk * 32
     first_pt = ck_off + 8
     for flag in ([0, 1, 2, 3, 128, 255] if quick else range(256)):
         b = bytearray(pv); b[first_pt + 96] = flag; addm("prover", [(f"raw commit-key point flag := {flag}", bytes(b))])
@@ -173,7 +192,7 @@ def run(ck):
             ck.violation(f"compressed description accepted although malformed: {desc}", ctx, key=f"compressed-accepts:{desc.split(':=')[0].strip()}")
     ck.notes.append(f"accepted mutants per decoder: {accepted}")
     return ck.finish(level="proof",
-        rule="structure-aware mutation of valid encodings of prover, verifier, proof, public parameters and compressed circuit: bit flips, every header length field to extremes and +-1, inner little-endian length fields, truncation/extension/splices, hand-built invalid G1 encodings (identity, x>=p, off curve, outside the subgroup, flag bytes), G2 opening-key elements on the twist but outside the subgroup (random, cofactor part, valid + cofactor point), non-canonical scalars, raw commit-key flag bytes, non-reduced limbs and on-curve points outside the subgroup (alone, and in groups whose torsion components cancel), re-packed MessagePack/deflate payloads (excess counts, out-of-range indices, trailing bytes inside and after the stream, bombs); checked build (debug assertions, overflow checks), catch_unwind, counting allocator; every accepted value is used once",
+        rule="structure-aware mutation of valid encodings of prover, verifier, proof, public parameters and compressed circuit: bit flips, every header length field to extremes and +-1, inner little-endian length fields, truncation/extension/splices, hand-built invalid G1 encodings (identity, x>=p, off curve, outside the subgroup, flag bytes), G2 opening-key elements on the twist but outside the subgroup (random, cofactor part, valid + cofactor point), non-canonical scalars (proof evaluations, prover-key coefficients and evaluation-table entries), raw commit-key flag bytes, non-reduced limbs and on-curve points outside the subgroup (alone, and in groups whose torsion components cancel), re-packed MessagePack/deflate payloads (excess counts, out-of-range indices, trailing bytes inside and after the stream, bombs); checked build (debug assertions, overflow checks), catch_unwind, counting allocator; every accepted value is used once",
         assumptions=["model-level totality is by construction; absence of panics and allocation bounds are established on the real decoders by the run", "memory safety and termination of the Rust binary are outside the model (time-outs enforced by the harness)"],
         checker_cmd=proofgate.CHECKER_CMD, trusted_base=proofgate.TRUSTED)
 
